@@ -148,6 +148,23 @@ func cmdDrive(args []string) {
 type familyFn func(g *gen.G, r *recorder, maxNodes, maxSteps int)
 
 var families = map[string]familyFn{
+	// namespace configurations (C14): prefixed name tests, six maps, both navigator flavours
+	"ns": func(g *gen.G, r *recorder, maxNodes, maxSteps int) {
+		d := g.NsDoc(maxNodes)
+		e := g.NsPath()
+		o := xast.Opts{Abbrev: g.R.Intn(2) == 0, Space: " "}
+		m := gen.NsMaps[g.R.Intn(len(gen.NsMaps))]
+		r.record(d, e, o, 1+g.R.Intn(d.Len()), "set", m, g.R.Intn(2) == 0, false)
+	},
+	// unions (C11): each node exactly once
+	"unions": func(g *gen.G, r *recorder, maxNodes, maxSteps int) {
+		d := g.Doc(maxNodes)
+		e := &xast.Expr{T: "union", L: g.UnionExpr(1), R: g.UnionExpr(2)}
+		o := xast.Opts{Abbrev: g.R.Intn(2) == 0, Space: " "}
+		for k := 0; k < 2; k++ {
+			r.record(d, e, o, 1+g.R.Intn(d.Len()), "once", nil, false, k == 1)
+		}
+	},
 	// paths with boolean / positional predicates inside the C02 / C03 fragments
 	"preds": func(g *gen.G, r *recorder, maxNodes, maxSteps int) {
 		d := g.Doc(maxNodes)
